@@ -1,6 +1,7 @@
 #!/bin/bash
 # usage: try_mutant.sh <patch.diff> <id>...   applies the patch to /repo, runs the checks, reverts
 p=$1; shift
+if [ -n "$(git -C /repo status --porcelain)" ]; then echo "refusing: /repo has uncommitted changes"; exit 3; fi
 git -C /repo apply $p || { echo "patch does not apply"; exit 2; }
 for id in "$@"; do /verif/bin/pvc check $id 2>&1 | grep -E "VIOLATION|KNOWN|UNDECIDED|^property=" | cut -c1-260 | head -8; done
 git -C /repo checkout -- . 
